@@ -6,7 +6,7 @@ PROP = dict(
     required_theorems=["C01_step_safe", "C01_step_post_ret", "C01_compile_safe_F0", "C01_depth_unsafe_fault"],
     harness_bin="c01",
     mismatch_is_violation=True,
-    rule="string templates: quick 90 / thorough 1500 programs with all six string comparison operators on designed pairs (equal, proper prefix either way, common prefix then smaller/greater byte, no common prefix, empty; every pair x operator at least once) as call arguments, under ==, in if conditions, under and/or, each followed in the same thread by further string operations on fresh temporaries, expected output computed byte-wise in the harness, run under all six budgets; search: quick 6x70 / thorough 6x2000 generated programs (tiers F0-F3 and two nesting streams with tasks, lambdas, loops, "
+    rule="product template: match on tuples, a struct and multi-field variants with void components in every position (trailing void, several voids), >= 2 arms where an earlier arm fails on a refutable sub-pattern, match in operand position with caller locals, expected output fixed in the harness, all six budgets; string templates: quick 90 / thorough 1500 programs with all six string comparison operators on designed pairs (equal, proper prefix either way, common prefix then smaller/greater byte, no common prefix, empty; every pair x operator at least once) as call arguments, under ==, in if conditions, under and/or, each followed in the same thread by further string operations on fresh temporaries, expected output computed byte-wise in the harness, run under all six budgets; search: quick 6x70 / thorough 6x2000 generated programs (tiers F0-F3 and two nesting streams with tasks, lambdas, loops, "
          "all assignment forms; every fifth program with large integer literals) and the repository corpus (the ~190 raw string "
          "literals of abra_core/tests/integration/e2e_bytecode.rs extracted at run time, minus those declaring #host functions), each "
          "checker-accepted program compiled and run under every step budget in {1,2,3,7,100,1000}: a host panic, an internal(...) error "
